@@ -12,6 +12,7 @@ import (
 	"sort"
 	"strings"
 	"sync"
+	"sync/atomic"
 	"time"
 
 	admissionv1 "k8s.io/api/admission/v1"
@@ -224,7 +225,10 @@ func BuildObject(o *ObjSpec) (runtime.Object, error) {
 	case "pod":
 		return o.Pod, nil
 	case "namespace":
-		return &corev1.Namespace{ObjectMeta: metav1.ObjectMeta{Name: o.NSName, Labels: o.Labels}}, nil
+		// metadata and status outside the labels must not matter
+		return &corev1.Namespace{ObjectMeta: metav1.ObjectMeta{Name: o.NSName, Labels: o.Labels, Generation: o.Generation,
+			Annotations: map[string]string{"pod-security.kubernetes.io/enforce": "privileged", "pod-security.kubernetes.io/exempt": "true"},
+			Finalizers:  []string{"kubernetes"}}, Status: corev1.NamespaceStatus{Phase: corev1.NamespaceActive}}, nil
 	case "other":
 		return &corev1.ConfigMap{ObjectMeta: metav1.ObjectMeta{Name: "cm"}}, nil
 	case "controller":
@@ -570,8 +574,14 @@ func (ctxNS) GetNamespace(ctx context.Context, name string) (*corev1.Namespace, 
 
 type ctxLister struct{}
 
+// SlowLister makes the context-driven lister pause, so that concurrent requests overlap inside ListPods.
+var SlowLister atomic.Bool
+
 func (ctxLister) ListPods(ctx context.Context, ns string) ([]*corev1.Pod, error) {
 	w := ctx.Value(worldKey{}).(*WorldSpec)
+	if SlowLister.Load() {
+		time.Sleep(300 * time.Microsecond)
+	}
 	if w.ListErr {
 		return nil, errors.New("injected list failure")
 	}
